@@ -12,6 +12,8 @@ import (
 	"strconv"
 	"testing"
 	"time"
+
+	"github.com/Cloud-Foundations/golib/pkg/log/testlogger"
 )
 
 const (
@@ -83,6 +85,8 @@ type c15Env struct {
 	closed              bool
 	dirty               bool // a timed-out primary read (or an asynchronous save) may still be running
 	res                 *verifResult
+	restarts            int
+	restartTime         time.Duration
 }
 
 func c15Setup(t *testing.T, res *verifResult) *c15Env {
@@ -117,8 +121,65 @@ func c15Setup(t *testing.T, res *verifResult) *c15Env {
 	if e.admC, err = sql.Open("sqlite3", e.cacheFile); err != nil {
 		t.Fatal(err)
 	}
-	t.Cleanup(func() { e.admP.Close(); e.admC.Close() })
+	t.Cleanup(func() { e.admP.Close(); e.admC.Close() }) // (closes whatever handles are current at the end)
 	return e
+}
+
+// restart: the daemon process ends and a new one starts on the same data directory.  Everything the
+// old process held in memory is gone (its RuntimeState, its database handles); both database FILES
+// stay.  The new RuntimeState comes from the production loader (loadVerifyConfigFile -> initDB), is
+// unsealed like the first one, its background copier is stopped before its first copy (every
+// synchronisation is driven by the harness), and the environment's outage is put back in force.
+func (e *c15Env) restart() {
+	t0 := time.Now()
+	defer func() { e.restartTime += time.Since(t0) }()
+	e.settle()
+	mode := e.mode
+	old := e.st
+	verifOutage.clear()
+	if !e.closed {
+		old.db.Close()
+	}
+	old.cacheDB.Close()
+	e.admP.Close()
+	e.admC.Close()
+	st, err := loadVerifyConfigFile(e.env.configFile, testlogger.New(e.t))
+	if err != nil {
+		e.t.Fatalf("restart: loadVerifyConfigFile: %v", err)
+	}
+	select {
+	case st.dbDone <- struct{}{}:
+	case <-time.After(20 * time.Second):
+		e.t.Fatal("restart: background copier did not stop")
+	}
+	e.env.state = st
+	if code := e.env.inject(e.env.passphrase, true); code != 200 {
+		e.t.Fatalf("restart: unseal failed: %d", code)
+	}
+	select {
+	case <-st.SignerIsReady:
+	case <-time.After(5 * time.Second):
+		e.t.Fatalf("restart: SignerIsReady not signalled")
+	}
+	e.env.finishStartup()
+	st.db.Close()
+	st.cacheDB.Close()
+	if st.cacheDB, err = verifOpenFaultDB(e.cacheFile); err != nil {
+		e.t.Fatal(err)
+	}
+	e.st = st
+	e.closed = true
+	e.reopen()
+	// the harness's own view of the two files (a removed and re-created file is a new inode)
+	if e.admP, err = sql.Open("sqlite3", e.primFile); err != nil {
+		e.t.Fatal(err)
+	}
+	if e.admC, err = sql.Open("sqlite3", e.cacheFile); err != nil {
+		e.t.Fatal(err)
+	}
+	e.restarts++
+	e.mode = c15Up
+	e.setMode(mode)
 }
 
 func (e *c15Env) reopen() {
